@@ -639,16 +639,18 @@ func apiCheckFunctions(t *testing.T) {
 		calls = append(calls, "aggfail:"+apiSnapshot(p))
 		return nil, fmt.Errorf("x")
 	})
-	docs := []string{`{"a":[[1,2],[3]],"b":[4,5],"c":{"x":1,"y":2},"d":7}`, `[1,2,3]`, `[[1],[2,3]]`, `{"a":1,"b":2}`, `{"a":[[1,2]]}`, `[[1,2]]`, `{"c":{"x":[7,8]}}`}
+	docs := []string{`{"a":[[1,2],[3]],"b":[4,5],"c":{"x":1,"y":2},"d":7}`, `[1,2,3]`, `[[1],[2,3]]`, `{"a":1,"b":2}`, `{"a":[[1,2]]}`, `[[1,2]]`, `{"c":{"x":[7,8]}}`, `{"p":{"q":{"r":{"s":[[1,2],[3]]}}}}`}
 	prefixes := []string{`$.a`, `$.a.*`, `$.a[0]`, `$.a[*]`, `$.b`, `$.b[*]`, `$.c`, `$.c.*`, `$..x`, `$.*`, `$[*]`, `$[0]`, `$`, `$['a','b']`, `$[0,1]`, `$[?(@)]`, `$.d`, `$.zz`,
 		// the leading `$` omitted
 		`a`, `a.*`, `a[0]`, `a[*]`, `a[*][0]`, `b[*]`, `c.*`, `*`, `[*]`, `[0]`, `['a','b']`, `[0,1]`, `[?(@)]`, `[0][*]`, `a[0:1]`,
 		// a multi-valued step followed by further steps, recursive descent before each bracket form
-		`$.a[*][0]`, `$.a[0][*]`, `$[*][0]`, `$.*[0]`, `$..['a','b']`, `$..['x','y']`, `$..[0]`, `$..[0,1]`, `$..*`, `$..[?(@)]`, `$.c['x','y']`, `$['c','zz'].x`}
+		`$.a[*][0]`, `$.a[0][*]`, `$[*][0]`, `$.*[0]`, `$..['a','b']`, `$..['x','y']`, `$..[0]`, `$..[0,1]`, `$..*`, `$..[?(@)]`, `$.c['x','y']`, `$['c','zz'].x`,
+		// a function in the middle of the path
+		`$.a.rec()[*]`, `$.a.rec()[0]`, `$.b.rec()[*]`, `$.c.rec().*`, `$.a[*].rec()[0]`, `a.rec()[*]`, `$.p.q.r.s[*]`, `$.p.q.r.s`, `$.p.q.r.*`, `p.q.r.s[*]`}
 	for _, ds := range docs {
 		for _, pre := range prefixes {
 			apiCount()
-			base, berr := Retrieve(pre, apiDecode(ds))
+			base, berr := Retrieve(pre, apiDecode(ds), cfg)
 			// filter function: once per selected value, in result order
 			calls = nil
 			apiCount()
